@@ -539,7 +539,10 @@ class C20(C.Check):
             "evaluations": len(checks), "distinct_nontrivial": distinct,
             "rule": "generated linear Gaussian models d = R s + n on %s pixels, R integer in [-2,2] of kinds %s, noise diagonal "
                     "(sigma in 1/2,1,2) or dense unimodular SPD, integer data; every route of both APIs; non-trivial = R != 0; "
-                    "distinct by (R, noise, d)" % (sorted(set(L.DIMS)), L.RKINDS),
+                    "distinct by (R, noise, d); plus R = g*A with a real scalar gain g in %s spelled as %s and heteroscedastic "
+                    "DiagonalOperator noise used through .inverse (%s)"
+                    % (sorted(set(L.DIMS)), L.RKINDS, [str(g) for g in GAINS], SPELLINGS, NMODES),
+            "gain_models": len({c["idx"] for c, r, o in self.obs if c.get("gain")}),
             "rank_deficient_models": len(rd),
             "samples": [{"case": c, "route": r} for c, r, o in self.obs[3:5]],
             "input_distribution": dist,
